@@ -343,11 +343,10 @@ def r4_single_point_of_use(ctx, rep, R='C08.R4'):
               where=ctx.where(ft, ft.node))
     go = m.func('options.get_options')
     defs = {}
-    for node in ast.walk(go.node):
-        if isinstance(node, ast.Assign) and len(node.targets) == 1 and \
-                dotted(node.targets[0]) in ('options.test', 'options.module') and \
-                isinstance(node.value, ast.BoolOp) and isinstance(node.value.op, ast.Or):
-            defs[dotted(node.targets[0])] = norm(node.value.values[-1])
+    from .c03 import default_dot_stores
+    for T_ in ('options.test', 'options.module'):
+        if default_dot_stores(ctx, go, T_):
+            defs[T_] = "['.']"
     rep.check(defs == {'options.test': "['.']", 'options.module': "['.']"}, R,
               'get_options: options.test / options.module default to ["."]',
               'defaults are %s' % defs, key='defaults', func=go.qualname, where=ctx.where(go, go.node))
